@@ -64,8 +64,23 @@ func vfH_connect_reply() {
 		dialed = addr
 		return tc, nil
 	}}
+	fault := vfChoose(3)
+	vfReqWriteFail = 0
+	switch fault {
+	case 1:
+		vfReqWriteFail = 1 // writing the CONNECT request fails
+	case 2:
+		tc.wfailAt, tc.wfault = 0, 1 // the transport fails on the first write
+	}
 	vfUnwind(64)
 	conn, err := hpd.DialContext(&vfCtx{}, "tcp", "backend.example:443")
+	vfReqWriteFail = 0
+	if fault > 0 {
+		vfAssert(err != nil && conn == nil, "c16-connect-write-failure-fails-the-dial")
+		vfAssert(tc.closed >= 1, "c16-closed-on-connect-write-failure")
+		vfReach("connect-reply-end")
+		return
+	}
 	vfAssert(dialed == "proxy.example:3128", "c18-first-hop-is-the-proxy")
 	vfAssert(len(vfReqLog) == 1, "c18-exactly-one-connect")
 	rq := vfReqLog[0].req
@@ -133,6 +148,7 @@ func vfH_dial_logic() {
 	vfClockMaxStep(int64(writeWait))
 	vfReqLog, vfRespQueue, vfTLSLog, vfTLSConns = nil, nil, nil, nil
 	vfTLSPeers, vfReqWriteFail, vfDefaultDialerUsed, vfDefaultDialConn = nil, 0, 0, nil
+	vfBodyChunk = 0
 	kr := &vfRand{}
 	rand.Reader = kr
 	in := vfDialIn{scheme: "ws", host: "example.com", path: "/chat", d: &Dialer{}, ctx: &vfCtx{}, code: 101, status: "101 Switching Protocols",
@@ -289,6 +305,7 @@ func vfH_dial_logic() {
 		case 12: // body of a refused handshake
 			in.code, in.status = 403, "403 Forbidden"
 			in.body = vfPick([]int{0, 10, 1024, 1500})
+			vfBodyChunk = vfPick([]int{0, 7})
 		case 13: // transport / hook faults at every operation
 			switch vfChoose(3) {
 			case 0:
